@@ -101,4 +101,87 @@ Holds trivially when ids are pairwise distinct, and for shared sub-trees. -/
 def Rel.MarkersConsistent (σ : Leaves) (r : Rel) : Prop :=
   ∀ p q, p ∈ r.markers σ → q ∈ r.markers σ → p.1 = q.1 → p.2 = q.2
 
+/-! ### Materialization bookkeeping (C10) -/
+
+/-- Allocation ids of the materialization nodes of a tree. -/
+def Rel.matOids : Rel → List Nat
+  | .leaf .. => []
+  | .unary _ t _ => Rel.matOids t
+  | .binary _ l r _ => Rel.matOids l ++ Rel.matOids r
+  | .mat oid _ t => oid :: Rel.matOids t
+  | .transfer _ _ t => Rel.matOids t
+  | .select _ _ _ _ _ _ _ _ t => Rel.matOids t
+
+/-- No materialization object occurs inside its own upstream tree (Python objects are built
+bottom-up and are immutable, so the object graph is acyclic). -/
+def Rel.Acyclic : Rel → Prop
+  | .leaf .. => True
+  | .unary _ t _ => Rel.Acyclic t
+  | .binary _ l r _ => Rel.Acyclic l ∧ Rel.Acyclic r
+  | .mat oid _ t => oid ∉ Rel.matOids t ∧ Rel.Acyclic t
+  | .transfer _ _ t => Rel.Acyclic t
+  | .select _ _ _ _ _ _ _ _ t => Rel.Acyclic t
+
+/-- The ghost evaluation log is duplicate free and every materialization evaluated so far still
+holds its payload. -/
+def EvalsOK (s : ExecState) : Prop :=
+  s.evals.Nodup ∧ ∀ o, o ∈ s.evals → (s.payload o).isSome = true
+
+/-- What one successful `execute` call does to the payload store. -/
+structure ExecFrame (r : Rel) (s s' : ExecState) : Prop where
+  /-- write-once: a payload that is there is never replaced or cleared -/
+  mono : ∀ o p, s.payload o = some p → s'.payload o = some p
+  /-- payloads appear only on materialization nodes of the executed tree -/
+  fresh : ∀ o, (s'.payload o).isSome = true → (s.payload o).isSome = true ∨ o ∈ r.matOids
+  /-- each materialization's upstream tree is evaluated at most once, ever -/
+  evalsOK : EvalsOK s → EvalsOK s'
+  /-- the evaluation log only grows -/
+  evals_ext : ∃ new, s'.evals = new ++ s.evals
+
+/-! ### Laziness (C18) -/
+
+def UOp.isLazy : UOp → Bool
+  | .calc _ _ => true
+  | .proj _ => true
+  | .sel _ => true
+  | .slice _ _ => true
+  | _ => false
+
+/-- Trees made only of calculation, projection, selection, slice and chain over leaves. -/
+def Rel.LazyOnly : Rel → Prop
+  | .leaf .. => True
+  | .unary op t _ => Rel.LazyOnly t ∧ op.isLazy = true
+  | .binary op l r _ =>
+    Rel.LazyOnly l ∧ Rel.LazyOnly r ∧
+      (match op with
+       | .chain => True
+       | _ => False)
+  | _ => False
+
+/-- The leaf occurrences of a tree, left to right (one entry per occurrence). -/
+def Rel.leafOccs : Rel → List Nat
+  | .leaf oid .. => [oid]
+  | .unary _ t _ => Rel.leafOccs t
+  | .binary _ l r _ => Rel.leafOccs l ++ Rel.leafOccs r
+  | .mat _ _ t => Rel.leafOccs t
+  | .transfer _ _ t => Rel.leafOccs t
+  | .select _ _ _ _ _ _ _ _ t => Rel.leafOccs t
+
+/-- The leaf payload occurrences inside a row iterable. -/
+def Iterable.leafOccs : Iterable → List Nat
+  | .seq _ => []
+  | .mapping _ _ => []
+  | .leafRef o => [o]
+  | .calc t _ _ => Iterable.leafOccs t
+  | .proj t _ => Iterable.leafOccs t
+  | .sel t _ => Iterable.leafOccs t
+  | .slice t _ _ => Iterable.leafOccs t
+  | .chain a b => Iterable.leafOccs a ++ Iterable.leafOccs b
+
+/-- `RowSequence` / `RowMapping`: the result holds its rows itself. -/
+def Iterable.isStored : Iterable → Bool
+  | .seq _ => true
+  | .mapping _ _ => true
+  | _ => false
+
 end DafRel
